@@ -25,3 +25,15 @@ def r03_1_normal_form(ctx: Ctx) -> RuleResult:
     rr.states = ctx.cache.get("sweep_steps", 0)
     decide(rr, groups, "R03.1", R031_EXPECTED)
     return rr
+
+
+C03_MODULES = ["pyoda_time/_duration.py", "pyoda_time/_instant.py", "pyoda_time/_offset.py", "pyoda_time/_local_instant.py", "pyoda_time/utility/_tick_arithmetic.py"]
+
+
+@rule("C03")
+def r03_3_numeric_discipline(ctx: Ctx) -> RuleResult:
+    from ..numeric import check_numeric
+
+    rr = RuleResult("R03.3", "no float arithmetic on unbounded integer quantities; flooring operators only on non-negative operands", min_instances=12)
+    check_numeric(ctx, rr, C03_MODULES)
+    return rr
